@@ -129,7 +129,7 @@ def check(ctx):
 
     R3 = ctx.rule("R3", "every data-builder closure binds its own url and nonce arguments; the builder bound is Fn")
     clos = builder_closures(prog)
-    ctx.floor(R3, "data-builder closures", len(clos), 11)
+    ctx.floor(R3, "data-builder closures", len(clos), 2)
     for g, gbody in sorted(clos.items()):
         encs = [x for x in gbody.calls if (x.name or "").startswith("acmed::jws::encode")]
         for e in encs:
@@ -156,7 +156,7 @@ def check(ctx):
     kid_sites = prog.all_calls_to(ENC_KID, crates=("acmed",))
     mac_sites = prog.all_calls_to(ENC_MAC, crates=("acmed",))
     ctx.floor(R4, "encode_jwk sites", len(jwk_sites), 2)
-    ctx.floor(R4, "encode_kid sites", len(kid_sites), 3)
+    ctx.floor(R4, "encode_kid sites", len(kid_sites), 1)
     ctx.floor(R4, "encode_kid_mac sites", len(mac_sites), 1)
     for c in jwk_sites:
         k = c.body.key
